@@ -69,6 +69,7 @@ func oracle(sc *Scenario, tr *trace) (*Violation, bool, bool, []int) {
 	acked := make([][]int64, np)   // acknowledged events per partition
 	flushed := make([][]int64, np) // ... of which known to be flushed
 	registered := make([]bool, np)
+	dropped := make([]bool, np) // truncated away completely and not written since
 	pipes := map[string]bool{}
 	flushedAny, hazard := false, false
 	if len(tr.obs) == 0 || !tr.obs[0].Started {
@@ -95,7 +96,29 @@ func oracle(sc *Scenario, tr *trace) (*Violation, bool, bool, []int) {
 			switch st.Op {
 			case "write":
 				registered[st.Part] = true
+				dropped[st.Part] = false
 				acked[st.Part] = append(acked[st.Part], st.Ts...)
+			case "drop":
+				// truncated away completely: the partition, what it held and what its time index said are gone
+				registered[st.Part], acked[st.Part], flushed[st.Part] = false, nil, nil
+				dropped[st.Part], tainted[st.Part] = true, false
+			case "fwdpipe":
+				pipes[fwdPipe] = true
+			case "round":
+				// everything is flushed, the pipe has forwarded the source's flushed events (once, in order), its destination
+				// is flushed; the write of the round is acknowledged
+				for p := range acked {
+					flushed[p] = append([]int64{}, acked[p]...)
+				}
+				dst := np - 1
+				acked[dst] = append([]int64{}, acked[0]...)
+				flushed[dst] = append([]int64{}, acked[0]...)
+				registered[dst] = true // the worker's (possibly empty) write registers the destination
+				if len(flushed[dst]) > 0 {
+					flushedAny = true
+				}
+				registered[0] = true
+				acked[0] = append(acked[0], st.Ts...)
 			case "sync":
 				for p := range acked {
 					flushed[p] = append([]int64{}, acked[p]...)
@@ -109,6 +132,7 @@ func oracle(sc *Scenario, tr *trace) (*Violation, bool, bool, []int) {
 				delete(pipes, st.Name)
 			}
 		}
+		taintedInSession := append([]bool{}, tainted...) // lost records at an earlier end, not truncated away since
 		if crashed(ss) || len(ss.Surgery) > 0 {
 			hazard = true
 		}
@@ -120,8 +144,36 @@ func oracle(sc *Scenario, tr *trace) (*Violation, bool, bool, []int) {
 				}
 			}
 		}
+		// in the session, just before its end: a time-range query must show every event in the range that a plain read
+		// shows (the harness asked again for a while: an index found inconsistent by a write is rebuilt in the background)
+		for p := 0; p < np && p < len(pre.Parts); p++ {
+			if !pre.Parts[p].Exists || rangeComplete(sc, pre.Parts[p].Events, pre.Ranges[p]) {
+				continue
+			}
+			if so := tr.obs[si]; !so.Blind && p < len(so.Parts) && so.Parts[p].Exists && !rangeComplete(sc, so.Parts[p].Events, so.Ranges[p]) {
+				continue // already short at the start of this session: reported (and classified) there
+			}
+			reason := "unexplained-in-session"
+			if si > 0 {
+				prev := sc.Sessions[si-1]
+				switch {
+				case taintedInSession[p]:
+					reason = "index-ahead-of-journal"
+				case has(prev.Surgery, "cindex-stale"):
+					reason = "cindex-stale"
+				case crashed(prev):
+					reason = "after-kill"
+				}
+			}
+			add("range-hides-events:"+reason, "session %d, before its end: partition %d holds %v, RANGE [%d:%d] answers %v", si, p, pre.Parts[p].Events, sc.Range[0], sc.Range[1], pre.Ranges[p])
+		}
 		S := ss.Surgery
 		o := tr.obs[si+1]
+		if o.Blind {
+			// nothing was asked at this start: what the next session finds is checked at its end and at the start after it
+			// (the generator ends the session before a blind start with everything flushed, so nothing may be lost here)
+			continue
+		}
 		where := fmt.Sprintf("start %d (session ended by %s, surgery %v)", si+1, ss.End, S)
 		if !o.Started {
 			reason := "unexplained-after-" + ss.End
@@ -161,7 +213,10 @@ func oracle(sc *Scenario, tr *trace) (*Violation, bool, bool, []int) {
 				continue
 			}
 			if !registered[p] {
-				if pv.Exists {
+				if pv.Exists && dropped[p] {
+					add("dropped-partition-back-after-"+ss.End, "%s: partition %d was truncated away completely and is there again (events %v)", where, p, pv.Events)
+					dropped[p] = false
+				} else if pv.Exists {
 					add("partition-appeared", "%s: partition %d was never written", where, p)
 				}
 				continue
